@@ -26,28 +26,24 @@
 EXTENDS Naturals, Sequences, FiniteSets, TLC, VerifEmit
 
 CONSTANTS
-    MaxStreams,     \* streams per body
-    MaxBatches,     \* batches per stream
-    FirstClasses,   \* schema classes offered for stream 1
-    LaterClasses,   \* schema classes offered for streams 2.. (no helper looks at them)
-    Kinds,          \* palette of batch records offered to AddBatch (see Pal* below)
+    Suites,         \* set of enumeration suites (see Suite* below): each bounds the bodies
+                    \* built under it -- [name, ms, mb, first, later, kinds, wreq, wres]
     Tails,          \* how the bytes end: "clean","noeos","cut_in","cut_next","junk"
     SweepTails,     \* TRUE: one behaviour carries the whole set Tails (driver renders
                     \* every tail and demands one common observation); FALSE: one tail each
-    WriteReqCases,  \* [m, p, v] classes offered to WriteRequest
-    WriteResCases,  \* [env, pay] classes offered to WriteUnaryResult
     Garbles,        \* number of byte-garbled copies per body in the Malformed step
     Mode,           \* "mc" | "edges" | "tree"
     Depth           \* unused bound kept for cfg uniformity (emission is at the last step)
 
 VARIABLES
+    sname,    \* name of the enumeration suite this behaviour was generated under
     body,     \* sequence of streams [cls, batches]
     origin,   \* how the body came to be: built by hand, or written by a real writer
     tails,    \* set of tails under which the helpers are evaluated
     pc,       \* "build" -> "tokens" -> "pver" -> "unary" -> "request" -> "neg" -> "done"
     hist
 
-vars == <<body, origin, tails, pc, hist>>
+vars == <<sname, body, origin, tails, pc, hist>>
 
 --------------------------------------------------------------------------
 (* Batches.                                                                *)
@@ -88,7 +84,6 @@ PalEmpty   == {Zero, Cur, Call, Both, ECur, ECall}
 PalUnary   == {Data(1), Data(2), Zero, Log, Exc, Cur, PverOnly}
 PalPver    == {Zero, PverOnly, EPver, ReqV(1), Req(1), Cur}
 PalMixed   == {Data(1), Zero, Log, Exc, Cur, Call, Both, PverOnly, ReqV(1), XReq}
-PalMCQuick == {Data(1), Log, Exc, Both, Call, ReqV(1)}
 PalAll     == PalMixed \cup {Data(2), ECur, ECall, EPver, Req(1), XReq2, DataCur, LogData}
 \* ReadRequest decision table: every combination the validation chain looks at
 PalRequest == {[Zero EXCEPT !.rows = n, !.method = m, !.rv = r, !.loc = l, !.shm = h, !.log = g] :
@@ -235,6 +230,54 @@ WrittenResult(c) ==
     ELSE << [cls |-> IF c.env = "result_bin" THEN "bin1" ELSE "other", batches |-> <<Data(1)>>] >>
 
 --------------------------------------------------------------------------
+(* Enumeration suites.  The space of bodies is cut along the dimensions    *)
+(* each helper looks at, so that every cut is enumerated EXHAUSTIVELY      *)
+(* within its bounds: the schema class matters to ReadUnaryResult /        *)
+(* ReadRequest only and only for stream 1; streams 2.. matter to the token *)
+(* walk only; the request keys matter on batch <<1,1>> only.               *)
+AllFirst == {"empty", "other", "bin1", "binN", "nonbin"}
+Suite(n, ms, mb, first, kinds) ==
+    [name |-> n, ms |-> ms, mb |-> mb, first |-> first, later |-> {"any"}, kinds |-> kinds,
+     wreq |-> NoCases, wres |-> NoCases, minS |-> 0]
+SuiteWrite(n, wreq, wres) ==
+    [name |-> n, ms |-> 0, mb |-> 0, first |-> {}, later |-> {}, kinds |-> {}, wreq |-> wreq, wres |-> wres,
+     minS |-> 0]
+
+PalUnaryQ == {Data(1), Zero, Log, Exc, Cur}
+GenQuickSuites == {
+    Suite("unary",   1, 3, AllFirst, PalUnaryQ),            \* 5 * 156  result / log / error shapes
+    Suite("tokens",  2, 2, {"other"}, PalTokens5),          \* 993      token walks over 2 streams
+    Suite("tokens3", 3, 1, {"empty"}, PalTokens),           \* 156      ... over 3 streams
+    Suite("request", 1, 1, {"empty", "other"}, PalRequestQ),\* 166      ReadRequest decision table
+    Suite("mixed",   2, 1, AllFirst, PalMixed),             \* 660      everything on short bodies
+    Suite("stamps",  2, 1, {"other"}, PalPver \cup PalEmpty),\* version stamps, empty-valued keys
+    SuiteWrite("write", AllWriteReq, AllWriteRes) }         \* 79       the real writers
+GenThoroughSuites == {
+    Suite("unary",   1, 3, AllFirst, PalUnary),                          \* 5 * 400
+    Suite("tokens",  3, 2, {"other"}, PalTokens),                        \* 9724
+    Suite("tokens23",2, 3, {"empty"}, {Cur, Call, Both}),                \* 1641
+    Suite("request", 1, 1, {"empty", "other"}, PalRequest),              \* 1298
+    Suite("request2",2, 2, {"other"}, {Req(1), ReqV(1), XReq, Data(1), Req(0)}),  \* 993: drain + rest
+    Suite("mixed",   2, 2, {"other", "bin1"}, PalMixed \ {Both, Call}),  \* 10805
+    Suite("stamps",  2, 2, {"other"}, PalPver \cup {ECur, ECall}),       \* 5403
+    SuiteWrite("write", AllWriteReq, AllWriteRes) }
+\* random long bodies for -simulate
+\* (minS: seal only bodies of at least that many streams, so that walks get long)
+GenWalkSuites == { [Suite("walk", 3, 3, AllFirst, PalAll) EXCEPT !.minS = 3] }
+MCQuickSuites == {
+    Suite("mc",      1, 3, AllFirst, {Data(1), Log, Exc}),
+    Suite("mc2",     2, 2, {"other"}, {Zero, Cur, Call, Both, ReqV(1)}),
+    SuiteWrite("write", AllWriteReq, AllWriteRes) }
+MCThoroughSuites == {
+    Suite("mc",      2, 2, {"bin1"}, PalMixed),
+    Suite("mcU",     1, 3, AllFirst, PalUnary),
+    Suite("mc3",     3, 2, {"other"}, {Cur, Call, Both, ECur}),
+    Suite("mcreq",   1, 1, {"empty", "other"}, PalRequest),
+    Suite("mcstamp", 1, 3, {"other"}, PalPver \cup PalEmpty),
+    Suite("mcstamp2",2, 1, {"other"}, PalPver \cup PalEmpty),
+    SuiteWrite("write", AllWriteReq, AllWriteRes) }
+
+--------------------------------------------------------------------------
 (* Which observations C01 pins down (judged keys); everything else the     *)
 (* code does is still predicted, under a key ending in "_x" (drift only).  *)
 AllPositions(bd) == UNION {{Pos(s, b) : b \in 1..Len(bd[s].batches)} : s \in 1..Len(bd)}
@@ -266,31 +309,39 @@ RequestJudged(bd) ==
 K(judged, k, v) == IF judged THEN k :> v ELSE (k \o "_x") :> v
 
 --------------------------------------------------------------------------
+\* constant-level table, evaluated once
+SuiteByName == [n \in {u.name : u \in Suites} |-> CHOOSE u \in Suites : u.name = n]
+suite == SuiteByName[sname]
+
 Rep(T) == IF "clean" \in T THEN "clean" ELSE CHOOSE t \in T : TRUE
 
 Emit(h) == (Mode # "mc") => EmitTrace(h)
+\* model checking never reads the copy of the body kept in hist (the properties
+\* read the variable); leaving it out keeps the states TLC stores small
+InHist(bd) == IF Mode = "mc" THEN <<>> ELSE bd
 Record(step) == hist' = Append(hist, step)
 RecordLast(step) == hist' = Append(hist, step) /\ Emit(hist')   \* the behaviour is complete
 
 (* ---- building a body by hand ---------------------------------------- *)
 OpenStream(c) ==
     /\ pc = "build" /\ origin.kind = "built"
-    /\ Len(body) < MaxStreams
+    /\ Len(body) < suite.ms
     /\ body' = Append(body, [cls |-> c, batches |-> <<>>])
-    /\ UNCHANGED <<origin, tails, pc, hist>>
+    /\ UNCHANGED <<sname, origin, tails, pc, hist>>
 
 AddBatch(k) ==
     /\ pc = "build" /\ origin.kind = "built"
     /\ body # <<>>
-    /\ Len(body[Len(body)].batches) < MaxBatches
+    /\ Len(body[Len(body)].batches) < suite.mb
     /\ body' = [body EXCEPT ![Len(body)].batches = Append(@, k)]
-    /\ UNCHANGED <<origin, tails, pc, hist>>
+    /\ UNCHANGED <<sname, origin, tails, pc, hist>>
 
 Seal(T) ==
     /\ pc = "build" /\ origin.kind = "built"
+    /\ Len(body) >= suite.minS
     /\ tails' = T /\ pc' = "tokens"
-    /\ UNCHANGED <<body, origin>>
-    /\ Record([a |-> "Body", h |-> "Body", args |-> [streams |-> body, tails |-> T],
+    /\ UNCHANGED <<sname, body, origin>>
+    /\ Record([a |-> "Body", h |-> "Body", args |-> [streams |-> InHist(body), tails |-> T],
                exp |-> [nstreams |-> Len(body)]])
 
 (* ---- or letting the real writers produce it -------------------------- *)
@@ -298,7 +349,7 @@ WriteRequest(c, T) ==
     /\ pc = "build" /\ body = <<>>
     /\ body' = WrittenRequest(c)
     /\ origin' = [kind |-> "wreq", c |-> c]
-    /\ tails' = T /\ pc' = "tokens"
+    /\ tails' = T /\ pc' = "tokens" /\ UNCHANGED sname
     /\ Record([a |-> "WriteRequest", h |-> "WriteRequest", args |-> [m |-> c.m, p |-> c.p, v |-> c.v, tails |-> T],
                exp |-> [w_ok |-> TRUE, w_keys |-> WrittenKeys(c), w_rv |-> "1",
                         w_batches |-> 1, w_eos |-> TRUE]])
@@ -307,7 +358,7 @@ WriteUnaryResult(c, T) ==
     /\ pc = "build" /\ body = <<>>
     /\ body' = WrittenResult(c)
     /\ origin' = [kind |-> "wres", c |-> c]
-    /\ tails' = T /\ pc' = "tokens"
+    /\ tails' = T /\ pc' = "tokens" /\ UNCHANGED sname
     /\ Record([a |-> IF EnvAccepted(c) THEN "WriteUnaryResult_OK" ELSE "WriteUnaryResult_BadEnvelope", h |-> "WriteUnaryResult",
                args |-> [env |-> c.env, pay |-> c.pay, tails |-> T],
                exp |-> [w_ok |-> EnvAccepted(c), w_batches |-> IF EnvAccepted(c) THEN 1 ELSE 0]])
@@ -321,7 +372,7 @@ FindStreamTokens ==
                        @@ K(CallJudged(body), "call", r.call)
                        @@ ("single" :> TRUE)])   \* FindStateToken / FindCallStateToken agree
     /\ pc' = "pver"
-    /\ UNCHANGED <<body, origin, tails>>
+    /\ UNCHANGED <<sname, body, origin, tails>>
 
 FindProtocolVersion ==
     /\ pc = "pver"
@@ -329,7 +380,7 @@ FindProtocolVersion ==
        Record([a |-> "FindProtocolVersion_" \o r.br, h |-> "FindProtocolVersion", args |-> [x |-> 0],
                exp |-> K(PverJudged(body), "pver", r.pos)])
     /\ pc' = "unary"
-    /\ UNCHANGED <<body, origin, tails>>
+    /\ UNCHANGED <<sname, body, origin, tails>>
 
 ReadUnaryResult ==
     /\ pc = "unary"
@@ -343,7 +394,7 @@ ReadUnaryResult ==
                        @@ K(j, "rewrap", IF r.pos = NonePos THEN "n/a"
                                          ELSE IF body[1].cls = "bin1" THEN "same" ELSE "refused")])
     /\ pc' = "request"
-    /\ UNCHANGED <<body, origin, tails>>
+    /\ UNCHANGED <<sname, body, origin, tails>>
 
 ReadRequest ==
     /\ pc = "request"
@@ -356,44 +407,48 @@ ReadRequest ==
                        @@ K(j /\ r.pver # "empty", "req_pver", r.pver)
                        @@ ("rest_x" :> r.rest)])
     /\ pc' = "neg"
-    /\ UNCHANGED <<body, origin, tails>>
+    /\ UNCHANGED <<sname, body, origin, tails>>
 
 (* Negative direction.  The rendered body truncated at every message      *)
 (* boundary and one byte either side, Garbles byte-garbled copies of it,   *)
 (* and a handful of arbitrary byte strings go through every helper:        *)
-(* nothing panics or takes the process down (fatal: the driver runs these  *)
-(* in a child process); a truncation (a PREFIX of the body) is never misread -- *)
-(* whatever a helper still returns for it is what it returns for the whole *)
-(* body; nothing at all comes out of the arbitrary strings.                *)
+(*  - nothing panics (a recovered Go panic) and nothing takes the whole    *)
+(*    process down (the driver runs garbled/arbitrary bytes in a child     *)
+(*    process: fatal_alloc = it died or stalled inside a memory            *)
+(*    allocation, fatal_other = any other death);                          *)
+(*  - a truncation (a PREFIX of the body) is never misread: whatever a     *)
+(*    helper still returns for it is what it returns for the whole body;   *)
+(*  - nothing at all comes out of the arbitrary strings.                   *)
 Malformed ==
     /\ pc = "neg"
     /\ RecordLast([a |-> "Malformed", h |-> "Malformed", args |-> [garbles |-> Garbles],
-               exp |-> [panics |-> 0, fatal |-> 0, misread |-> 0, junk_accepted |-> 0]])
+               exp |-> [panics |-> 0, fatal_alloc |-> 0, fatal_other |-> 0, misread |-> 0, junk_accepted |-> 0]])
     /\ pc' = "done"
-    /\ UNCHANGED <<body, origin, tails>>
+    /\ UNCHANGED <<sname, body, origin, tails>>
 
 Init ==
+    /\ sname \in {u.name : u \in Suites}
     /\ body = <<>>
     /\ origin = [kind |-> "built"]
     /\ tails = {}
     /\ pc = "build"
-    /\ hist = << [a |-> "Init", h |-> "Init", args |-> [MaxStreams |-> MaxStreams, MaxBatches |-> MaxBatches],
+    /\ hist = << [a |-> "Init", h |-> "Init", args |-> [suite |-> suite.name, ms |-> suite.ms, mb |-> suite.mb],
                   exp |-> [x |-> 0]] >>
 
 TailSets == IF SweepTails THEN {Tails} ELSE {{t} : t \in Tails}
 
 Next ==
-    \/ \E c \in (IF body = <<>> THEN FirstClasses ELSE LaterClasses) : OpenStream(c)
-    \/ \E k \in Kinds : AddBatch(k)
+    \/ \E c \in (IF body = <<>> THEN suite.first ELSE suite.later) : OpenStream(c)
+    \/ \E k \in suite.kinds : AddBatch(k)
     \/ \E T \in TailSets : Seal(T)
-    \/ \E c \in WriteReqCases, T \in TailSets : WriteRequest(c, T)
-    \/ \E c \in WriteResCases, T \in TailSets : WriteUnaryResult(c, T)
+    \/ \E c \in suite.wreq, T \in TailSets : WriteRequest(c, T)
+    \/ \E c \in suite.wres, T \in TailSets : WriteUnaryResult(c, T)
     \/ FindStreamTokens \/ FindProtocolVersion \/ ReadUnaryResult \/ ReadRequest
     \/ Malformed
 
 Spec == Init /\ [][Next]_vars
 
-View == <<body, origin, tails, pc>>
+View == <<sname, body, origin, tails, pc>>
 
 --------------------------------------------------------------------------
 (*                     C01, stated declaratively                          *)
@@ -479,7 +534,7 @@ RequestsRoundTrip ==
       ]_vars
 
 NeverPanics ==
-    [][ IsStep("Malformed") => Last.exp.panics = 0 /\ Last.exp.fatal = 0 /\ Last.exp.misread = 0 /\ Last.exp.junk_accepted = 0 ]_vars
+    [][ IsStep("Malformed") => Last.exp.panics = 0 /\ Last.exp.fatal_alloc = 0 /\ Last.exp.fatal_other = 0 /\ Last.exp.misread = 0 /\ Last.exp.junk_accepted = 0 ]_vars
 
 \* (f) as a state predicate over the viewed state: the judged part of every
 \* helper's answer is the same under every tail.
